@@ -594,3 +594,98 @@ pub fn c14_mesh_case(seed: u64, case: u64) -> CaseResult {
     res.sample = Some(json!({"replicas": n, "rounds": rounds, "max_parents_of_a_block": max_parents, "head_sets_revisited": recorded.len()}));
     res
 }
+
+// ------------------------------------------------------------------------------------ C02 (objects known only to caches)
+/// A pack-less block (its object was deduplicated against a pack the author held without the pack's
+/// block) reaches a replica that does not hold that pack but has seen the same content before: staged
+/// and discarded (object cache), created and removed (unreferenced staged object), or never.
+/// The block must stay without effect, and the live replica must equal a fresh one on the same storage.
+pub fn c02_cache_case(seed: u64, case: u64) -> CaseResult {
+    use crate::gen;
+    let mut res = CaseResult::default();
+    let mut r = Rng::derive(seed, case, 0xCAC);
+    let dp = gen::DocProfile::default();
+    let caps = (*r.pick(&[1u32, 2, 16]), *r.pick(&[1u32, 2, 16]));
+    let mut c = serde_json::Map::new();
+    c.insert("v".into(), gen::rand_value(&mut r, &dp, 2));
+    c.insert("w".into(), json!(r.below(1000)));
+    let variant = r.below(3);
+    let extra = r.below(20); // other objects written in between (cache pressure)
+    let out = guard(|| {
+        let (a1, _) = store::mon_mem();
+        engine::set_caps(caps);
+        let r1 = Melda::new(a1.clone())?;
+        r1.create_object("x", c.clone())?;
+        r1.commit(None)?;
+        let f1 = store::dump(&a1);
+        let (a2, _) = store::mon_mem();
+        for (k, v) in &f1 {
+            if k.ends_with(".pack") {
+                store::put(&a2, k, v)?;
+            }
+        }
+        let r2 = Melda::new(a2.clone())?;
+        r2.create_object("y", c.clone())?;
+        r2.commit(None)?;
+        let f2 = store::dump(&a2);
+        let (a0, _) = store::mon_mem();
+        let mut r0 = Melda::new(a0.clone())?;
+        match variant {
+            0 => {
+                r0.create_object("z", c.clone())?;
+                r0.unstage()?;
+            }
+            1 => {
+                r0.create_object("z", c.clone())?;
+                r0.remove_object("z")?;
+            }
+            _ => {}
+        }
+        for i in 0..extra {
+            r0.create_object(&format!("o{}", i), json!({"n": i}).as_object().unwrap().clone())?;
+        }
+        if extra > 0 {
+            r0.commit(None)?;
+        }
+        for (k, v) in &f2 {
+            if k.ends_with(".delta") {
+                store::put(&a0, k, v)?;
+            }
+        }
+        r0.refresh()?;
+        Ok((r0, a0))
+    });
+    match out {
+        Outcome::Ok((r0, a0)) => {
+            let o = observe(&r0);
+            let files = store::dump(&a0);
+            check_vs_ref(&mut res, "C02", "cache-only-object", &o, &files);
+            let rs = refmodel::build(&files);
+            for (stem, _) in &rs.blocks {
+                let ap = DeltaId::from(stem).ok().and_then(|id| r0.get_delta(&id).ok().flatten()).map(|d| d.verif_status() == "applied").unwrap_or(false);
+                if ap != rs.complete.contains(stem) {
+                    res.viol("C02", if ap { "incomplete-block-applied" } else { "complete-block-held-back" }, format!("variant {} caps {:?}: block {} applied={} although the object it names is in no stored pack", variant, caps, stem, ap));
+                }
+            }
+            match open_with(&a0, caps) {
+                Outcome::Ok(m2) => {
+                    let o2 = observe(&m2);
+                    if o2.s_value(false) != o.s_value(false) || o2.anchors != o.anchors {
+                        res.viol("C02", "incremental-refresh-differs-from-reload", format!("variant {} caps {:?}: {}", variant, caps, o.diff(&o2)));
+                        res.viol("C18", "state-depends-on-object-cache", format!("variant {} caps {:?}: {}", variant, caps, o.diff(&o2)));
+                    }
+                }
+                oo => res.viol("C02", "reload-of-prefix-failed", oo.describe()),
+            }
+            res.count("c02_cache_scenarios", 1);
+        }
+        Outcome::Err(e) => res.viol("C08", "error-in-cache-scenario", e),
+        Outcome::Panic(p) => res.viol("C08", "panic-in-cache-scenario", p),
+    }
+    res.features.insert("variant".into(), variant as u64);
+    res.features.insert("extra_objects".into(), extra as u64);
+    res.opkinds = format!("{}:{}:{:?}", variant, extra, caps);
+    let vname = ["staged then unstaged (object cache)", "created then removed (unreferenced staged object)", "never seen"][variant];
+    res.sample = Some(json!({"variant": vname, "caps": [caps.0, caps.1], "extra_objects": extra}));
+    res
+}
